@@ -951,7 +951,9 @@ uint64_t vf_hostile_index(vf_rng *r) {
     }
 }
 int vf_hostile_int(vf_rng *r) {
-    static const int sp[] = {-1, -2, 0, 1, 15, 16, 17, 2147483647, -2147483647 - 1, 2147483646, 100, -100, 255, 256, 65536};
+    /* incl. values that look in range after truncation to 4, 8 or 16 bits, or after a sign flip */
+    static const int sp[] = {-1, -2, 0, 1, 15, 16, 17, 2147483647, -2147483647 - 1, 2147483646, 100, -100, 255, 256, 65536,
+                             257, 260, 271, 272, 512, 527, 65537, 65551, 1 << 20, (1 << 24) + 7, (1 << 30) + 15, -15, -16, -256, -65536, 31, 32, 47, 128, 143};
     switch (vf_below(r, 4)) {
         case 0:
             return (int)(uint32_t)vf_u64(r);
